@@ -154,7 +154,12 @@ def elems(draw, depth, root_level=False):
             if names_of_ns and draw(st.integers(0, 2)) == 0:
                 nsids = draw(st.sampled_from(names_of_ns))  # re-open a namespace
             else:
-                nsids = draw(ids(1, 1)) if draw(st.integers(0, 3)) else draw(ids(2, 3))
+                if draw(st.booleans()):
+                    # few names: the same local namespace name under different parents is common
+                    nsids = draw(st.lists(st.sampled_from(['A', 'B', 'Hal', 'Types']), min_size=1,
+                                          max_size=draw(st.sampled_from([1, 1, 1, 2]))))
+                else:
+                    nsids = draw(ids(1, 1)) if draw(st.integers(0, 3)) else draw(ids(2, 3))
                 names_of_ns.append(nsids)
             out.append({'k': 'ns', 'ids': list(nsids), 'elems': draw(elems(depth - 1))})
         else:
